@@ -26,7 +26,8 @@ func genC13(g *Gen) error {
 	files := []string{tsi + "search.go", tsi + "search_prune.go", tsi + "tag_array.go", tsi + "mergeset_index.go"}
 	g.Header(append(files, "engine/shard.go", "engine/immutable/mms_tables.go", "engine/partition.go",
 		"app/ts-store/transport/handler/handlers_process.go", tsi+"index_builder.go",
-		"lib/util/lifted/influx/meta/data.go", "lib/util/lifted/vm/protoparser/influx/parser.go")...)
+		"lib/util/lifted/influx/meta/data.go", "lib/util/lifted/vm/protoparser/influx/parser.go",
+		"lib/util/lifted/vm/mergeset/table.go")...)
 	g.GenNS()
 
 	type fn struct {
@@ -331,6 +332,9 @@ func genC13(g *Gen) error {
 		return err
 	}
 	g.StrList("returns_getOriginMstName", nvr)
+	if err := genC13Purge(g); err != nil {
+		return err
+	}
 	g.Footer()
 	return nil
 }
